@@ -68,9 +68,16 @@ def make_job(rng, jid, option, coarse=False, **kw):
             S["kw"]["t_sample"] = [float(v) for v in S["kw"]["t_sample"]["__unitarray__"]]
         if isinstance(S["kw"].get("sampling_interval"), str):
             S["kw"]["sampling_interval"] = 1.5
+        space = S["system"]["space"]
+        if space["type"] == "grid":
+            scale = space["cell_volume"] ** (2.0 / 3.0)
+        else:
+            vmin = min(nd["volume"] for nd in space["nodes"])
+            worst = max([e["surface"] / e["distance"] for e in space["edges"]] + [1.0])
+            scale = vmin / worst
         for sp in S["system"]["network"]["species"]:
-            if "D" in sp and not isinstance(sp["D"], dict):
-                sp["D"] = rng.choice([0.0, 0.05, 0.2])
+            # kd * dt per slot in {0, 0.3, 0.6}: overshoot to negative amounts, growth per step stays small (size assumption)
+            sp["D"] = rng.choice([0.0, 0.3, 0.6]) * scale / S["kw"]["time_step"]
         for r in S["system"]["network"]["reactions"]:
             if not isinstance(r["k+"], dict):
                 r["k+"] = rng.choice([0.3, 1.0, 0.05])
